@@ -3,8 +3,12 @@
 //
 // Trees are built in memory: a uefi.BIOSRegion whose elements are
 // uefi.FirmwareVolume values holding uefi.File values (GUID, type, size; no
-// sections).  A case describes the tree as volumes separated by '/', files by
-// ',', a file as guid.type.size in hex ("-" = no volume at all).  The boot
+// sections other than an optional user-interface section).  A case describes
+// the tree as volumes separated by '/', files by ',', a file as
+// guid.type.size[.ui] in hex ("-" = no volume at all); ui = "n" gives the file
+// a UI section with an ordinary name, ui = <c><hex> one whose name is the
+// string of GUID <hex> in upper (u), lower (l) or mixed (m) case, i.e. the name
+// the regex predicate of the `remove` command would match.  The boot
 // test is a scripted DXECleaner.Test; it records the tree it is shown.  The
 // cleaner's log writer is used as an observation point: "Trying to remove
 // <GUID>" is printed just before each removal, i.e. after the previous undo.
@@ -51,6 +55,47 @@ func unBig(s string) *big.Int {
 	return v
 }
 
+// uiName decodes the ui field of a file (see the package comment).
+func uiName(f string) string {
+	if f == "n" {
+		return "SomeDxe"
+	}
+	name := gidOf(unBig(f[1:])).String()
+	switch f[0] {
+	case 'u':
+		return strings.ToUpper(name)
+	case 'l':
+		return strings.ToLower(name)
+	default:
+		b := []byte(strings.ToLower(name))
+		for i := 0; i < len(b); i += 2 {
+			b[i] = strings.ToUpper(string(b[i]))[0]
+		}
+		return string(b)
+	}
+}
+
+// uiSection is what Parse yields for a binary EFI_SECTION_USER_INTERFACE
+// section carrying the name (UCS-2, NUL terminated).
+func uiSection(field string) *uefi.Section {
+	name := uiName(field)
+	body := []byte{}
+	for _, c := range name {
+		body = append(body, byte(c), 0)
+	}
+	body = append(body, 0, 0)
+	size := 4 + len(body)
+	buf := append([]byte{byte(size), byte(size >> 8), byte(size >> 16), byte(uefi.SectionTypeUserInterface)}, body...)
+	sec, err := uefi.NewSection(buf, 0)
+	if err != nil {
+		panic("harness: cannot build UI section: " + err.Error())
+	}
+	if sec.Name != name {
+		panic("harness: UI section name " + sec.Name + " != " + name)
+	}
+	return sec
+}
+
 func buildTree(s string) *tree {
 	t := &tree{}
 	br := &uefi.BIOSRegion{}
@@ -65,6 +110,9 @@ func buildTree(s string) *tree {
 					f.Header.Type = uefi.FVFileType(UnN(p[1]))
 					f.Header.ExtendedSize = UnN(p[2])
 					f.Type = f.Header.Type.String()
+					if len(p) > 3 {
+						f.Sections = []*uefi.Section{uiSection(p[3])}
+					}
 					fv.Files = append(fv.Files, f)
 				}
 			}
@@ -347,6 +395,11 @@ func opRemove(a []string) string {
 	var p visitors.FindPredicate
 	if a[2][0] == 'g' {
 		p = visitors.FindFileGUIDPredicate(gidOf(unBig(a[2][1:])))
+	} else if a[2][0] == 'r' { // the `remove` command: regex on GUID strings and UI names
+		var err error
+		if p, err = visitors.FindFilePredicate(gidOf(unBig(a[2][1:])).String()); err != nil {
+			panic(err)
+		}
 	} else {
 		p = predOf(UnN(a[2][1:]))
 	}
@@ -508,6 +561,18 @@ func pMono(a []string) string {
 
 func fileStr(g uint64, typ uint64, size uint64) string { return N(g) + "." + N(typ) + "." + N(size) }
 
+// GUID of the sampled trees' id g: 1..3 are tiny numbers, 4..6 have hex letters
+// in their string so that the case variants of a UI name differ
+func gHex(g int) string {
+	if g >= 4 && g <= 6 {
+		return "a1b2c3d4e5f60718293a4b5c6d7e8f0" + N(uint64(g))
+	}
+	return N(uint64(g))
+}
+
+// ui field naming GUID hex in a random case variant
+func uiField(r *Rng, hex string) string { return string("ulm"[r.Intn(3)]) + hex }
+
 // all file lists of length <= maxLen over GUID ids 1..ng (drivers, size 0x20)
 func volumes(ng, maxLen int) []string {
 	out := []string{""}
@@ -574,8 +639,15 @@ func randImage(r *Rng) (string, []int) {
 			if typ == 0xF0 {
 				fs[j] = "ffffffffffffffffffffffffffffffff.f0." + N(size)
 			} else {
-				fs[j] = fileStr(uint64(g), typ, size)
+				fs[j] = gHex(g) + "." + N(typ) + "." + N(size)
 				used[g] = true
+				// a UI section: an ordinary name, or one that spells the GUID of
+				// some file of the tree (possibly this one)
+				if r.Chance(1, 6) {
+					fs[j] += ".n"
+				} else if r.Chance(1, 4) {
+					fs[j] += "." + uiField(r, gHex(r.Range(1, ng)))
+				}
 			}
 		}
 		vols[i] = strings.Join(fs, ",")
@@ -609,7 +681,7 @@ func randReq(r *Rng, present []int) string {
 	var xs []string
 	for _, g := range present {
 		if r.Chance(1, 3) {
-			xs = append(xs, N(uint64(g)))
+			xs = append(xs, gHex(g))
 		}
 	}
 	if r.Chance(1, 20) {
@@ -645,6 +717,39 @@ func gen(r *Rng, tier string, emit Emit) {
 			for _, req := range []string{"-", "1", "2", "1,2", "3"} {
 				emit("C", "cleanmono", "ff", "0", img, req)
 				emit("P", "p_mono", "ff", "0", img, req)
+			}
+		}
+	}
+	// 1b. user-interface names that spell a candidate's GUID string (upper, lower,
+	// mixed case), on a non-candidate file or on another candidate, in the same
+	// or in another volume: the cleaner removes by GUID, such a name must not
+	// drag its file along; the `remove` command's predicate (sel r...) must
+	const d1, aux = "a1b2c3d4e5f60718293a4b5c6d7e8f04", "f0f0f0f1e1e2d2d3c3c4b4b4b4b4b4b"
+	sc1b := scripts(3)
+	for _, c := range []string{"u", "l", "m"} {
+		for _, at := range []string{"2", "7"} {
+			a := aux + "." + at + ".20." + c + d1
+			imgs := []string{
+				d1 + ".7.20," + a + "/2.7.20",
+				a + "," + d1 + ".7.20/2.7.20",
+				d1 + ".7.20/" + a + ",2.7.20",
+				d1 + ".7.20,2.7.20.n/" + a,
+				d1 + ".7.20." + c + d1 + "," + aux + "." + at + ".20.n/2.7.20",
+				d1 + ".7.20." + c + "2,2.7.20." + c + d1 + "/" + a,
+			}
+			for _, img := range imgs {
+				for _, s := range sc1b {
+					all("ff", "0", img, s)
+				}
+				for _, req := range []string{"-", aux, aux + ",2", d1, "2"} {
+					emit("C", "cleanmono", "ff", "0", img, req)
+					emit("P", "p_mono", "ff", "0", img, req)
+				}
+				for _, sel := range []string{"r" + d1, "g" + d1, "r2", "r" + aux} {
+					for _, k := range []string{"0", "1", "2"} {
+						emit("C", "remove", "ff", "0", sel, img, k)
+					}
+				}
 			}
 		}
 	}
@@ -684,9 +789,12 @@ func gen(r *Rng, tier string, emit Emit) {
 		emit("C", "cleanmono", pol, pc, img, req)
 		emit("P", "p_mono", pol, pc, img, req)
 		// Remove alone
-		sel := "g" + N(uint64(rr.Range(1, 6)))
+		sel := "g" + gHex(rr.Range(1, 6))
 		if len(used) > 0 && rr.Chance(3, 4) {
-			sel = "g" + N(uint64(used[rr.Intn(len(used))]))
+			sel = "g" + gHex(used[rr.Intn(len(used))])
+		}
+		if rr.Chance(1, 3) { // the `remove` command's predicate: GUID string or UI name
+			sel = "r" + sel[1:]
 		}
 		if rr.Chance(1, 3) {
 			sel = "p" + N(uint64(rr.Intn(4)))
